@@ -42,7 +42,8 @@ REQUIRED = ["probes", "graphs", "graphs_with_cycles", "graphs_with_oneway",
             "withdrawals_checked_at_disconnect", "ports_deleted", "ports_readded",
             "reconnects_before_the_old_connection_closed",
             "ports_that_kept_announcing_changes",
-            "histories_with_a_link_on_the_highest_port_number"]
+            "histories_with_a_link_on_the_highest_port_number",
+            "probes_padded_to_the_ethernet_minimum"]
 TIMEOUT = {"quick": 1500, "thorough": 10800}
 
 _st = {}
@@ -243,6 +244,8 @@ class Topo (object):
   def __init__ (self, w, n, dpid_base, initial_ports=4, hub=False, port_map=None):
     self.hub = hub
     self.port_map = port_map or {}
+    self.pad = False
+    self.padded = 0
     self.initial_ports = initial_ports
     self.w = w
     self.n = n
@@ -296,6 +299,10 @@ class Topo (object):
     tgt = self.phys.get((i, port))
     if tgt is None or not self.up.get((i, port)): return
     if tgt[0] not in self.sw: return
+    if self.pad and len(raw) < 60:
+      # what a network card does to a short frame on the way out
+      raw = raw + b"\0" * (60 - len(raw))
+      self.padded += 1
     self.queue.append((tgt[0], tgt[1], raw))
 
   def deliver (self):
@@ -392,6 +399,7 @@ def run_history (case, rep):
               initial_ports=case.get("initial_ports", 4), hub=bool(case.get("hub")),
               port_map=pmap)
   if case.get("hub"): rep.count("histories_with_a_flood_everything_flow")
+  topo.pad = bool(case.get("pad"))
   for (i, p, j, q) in wires: topo.wire(i, pm(p), j, pm(q))
   mine = set(topo.dpids)
   ev0 = len(_st["events"])
@@ -514,6 +522,7 @@ def run_history (case, rep):
   except Exception:
     fire("exception", traceback.format_exc()[-800:])
   finally:
+    if topo.padded: rep.count("probes_padded_to_the_ethernet_minimum", topo.padded)
     topo.close()
   return nt
 
@@ -747,6 +756,7 @@ def gen_histories (rng, n, link_timeout=None, st_opts=None):
       case["ops"] = [["hotplug"]] + ops
     if link_timeout: case["link_timeout"] = link_timeout
     if rng.random() < 0.35: case["small_dpids"] = True
+    if rng.random() < 0.5: case["pad"] = True
     if rng.random() < 0.25:
       # 0xfeff is the highest number a physical port can have (OFPP_MAX,
       # 0xff00, is the *number* of port numbers: the switch, the spanning
